@@ -217,6 +217,7 @@ package bt
 //@   assigns
 
 //@ func bt.(*Tx).change
+//@   opt reveal fee_of
 //@   int-overflow check
 //@   lemma (=> (and (not (nil? output)) (. output newOutput) (not (nil? (. output lockingScript)))) (= changeBytes (spec.new_output_bytes (len (. output lockingScript)) (old (len (. tx Outputs))))))
 //@   requires (spec.inputs_nonnil tx) (spec.outputs_nonnil tx)
@@ -322,6 +323,7 @@ package bt
 //@   loop 0 invariant (spec.out_scripts_nonnil tx)
 
 //@ func bt.(*Tx).feesPaid
+//@   opt reveal fee_of
 //@   int-overflow check
 //@   requires (=> (not (nil? fees)) (spec.wf_quote fees))
 //@   requires (<= (. size TotalStdBytes) 2199023255552) (<= (. size TotalDataBytes) 2199023255552)
@@ -560,39 +562,57 @@ package bt
 //@   ensures[validtxid] (= result (= (len txid) 32))
 //@ func bt.(*Input).PreviousTxIDAdd
 //@   assigns (. i previousTxID)
-//@   ensures[C12.txid_add] (and (= (= err nil) (= (len txID) 32)) (=> (= err nil) (= (. i previousTxID) txID)) (=> (not (= err nil)) (= (. i previousTxID) (old (. i previousTxID)))))
+//@   ensures[C12.txid_add] (and (or (= err nil) (= err ErrInvalidTxID)) (= (= err nil) (= (len txID) 32)) (=> (= err nil) (= (. i previousTxID) txID)) (=> (not (= err nil)) (= (. i previousTxID) (old (. i previousTxID)))))
 //@ func bt.(*Tx).addInput
 //@   bytes array
 //@   ensures[C12.add_input] (and (= (len (. tx Inputs)) (+ (old (len (. tx Inputs))) 1)) (= (at (. tx Inputs) (old (len (. tx Inputs)))) input) (forall ((k Int)) (=> (and (<= 0 k) (< k (old (len (. tx Inputs))))) (= (at (. tx Inputs) k) (old (at (. tx Inputs) k))))))
 //@   ensures[C12.add_input_frame] (and (= (. tx Outputs) (old (. tx Outputs))) (= (. tx Version) (old (. tx Version))) (= (. tx LockTime) (old (. tx LockTime))))
 //@ func bt.(*Tx).FromUTXOs
 //@   bytes array
+//@   opt forall-patterns 1
+//@   requires (forall ((k Int)) (=> (and (<= 0 k) (< k (len (. tx Inputs)))) (allocated (at (. tx Inputs) k))))
 //@   requires (forall ((j Int)) (=> (and (<= 0 j) (< j (len utxos))) (not (nil? (at utxos j)))))
 //@   requires (spec.inputs_nonnil tx)
 //@   ensures[C12.from_prefix] (and (>= (len (. tx Inputs)) (old (len (. tx Inputs)))) (forall ((k Int)) (=> (and (<= 0 k) (< k (old (len (. tx Inputs))))) (= (at (. tx Inputs) k) (old (at (. tx Inputs) k))))))
 //@   ensures[C12.from_count] (=> (= err nil) (= (len (. tx Inputs)) (+ (old (len (. tx Inputs))) (len utxos))))
+//@   ensures[C12.from_fields] (=> (= err nil) (forall ((k Int)) (=> (and (<= (old (len (. tx Inputs))) k) (< k (len (. tx Inputs)))) (and (not (nil? (at (. tx Inputs) k))) (= (. (at (. tx Inputs) k) previousTxID) (. (at utxos (- k (old (len (. tx Inputs))))) TxID)) (= (. (at (. tx Inputs) k) PreviousTxOutIndex) (. (at utxos (- k (old (len (. tx Inputs))))) Vout)) (= (. (at (. tx Inputs) k) PreviousTxSatoshis) (. (at utxos (- k (old (len (. tx Inputs))))) Satoshis)) (= (. (at (. tx Inputs) k) PreviousTxScript) (. (at utxos (- k (old (len (. tx Inputs))))) LockingScript)) (= (. (at (. tx Inputs) k) SequenceNumber) 4294967295)))))
 //@   ensures[C12.from_nonnil] (spec.inputs_nonnil tx)
+//@   ensures[C12.from_error] (or (= err nil) (= err ErrInvalidTxID))
+//@   ensures[C12.from_allocated] (forall ((k Int)) (=> (and (<= 0 k) (< k (len (. tx Inputs)))) (allocated (at (. tx Inputs) k))))
 //@   ensures[C12.from_outputs_untouched] (= (. tx Outputs) (old (. tx Outputs)))
 //@   loop 0 invariant (and (= (len (. tx Inputs)) (+ (old (len (. tx Inputs))) (+ rangeindex 1))) (= (. tx Outputs) (old (. tx Outputs))) (spec.inputs_nonnil tx))
 //@   loop 0 invariant (forall ((k Int)) (=> (and (<= 0 k) (< k (old (len (. tx Inputs))))) (= (at (. tx Inputs) k) (old (at (. tx Inputs) k)))))
+//@   loop 0 invariant (forall ((k Int)) (=> (and (<= 0 k) (< k (len (. tx Inputs)))) (allocated (at (. tx Inputs) k))))
+//@   loop 0 invariant (forall ((k Int)) (=> (and (<= (old (len (. tx Inputs))) k) (< k (len (. tx Inputs)))) (not (nil? (at (. tx Inputs) k)))))
+//@   loop 0 invariant (forall ((k Int)) (=> (and (<= (old (len (. tx Inputs))) k) (< k (len (. tx Inputs)))) (= (. (at (. tx Inputs) k) previousTxID) (. (at utxos (- k (old (len (. tx Inputs))))) TxID))))
+//@   loop 0 invariant (forall ((k Int)) (=> (and (<= (old (len (. tx Inputs))) k) (< k (len (. tx Inputs)))) (= (. (at (. tx Inputs) k) PreviousTxOutIndex) (. (at utxos (- k (old (len (. tx Inputs))))) Vout))))
+//@   loop 0 invariant (forall ((k Int)) (=> (and (<= (old (len (. tx Inputs))) k) (< k (len (. tx Inputs)))) (= (. (at (. tx Inputs) k) PreviousTxSatoshis) (. (at utxos (- k (old (len (. tx Inputs))))) Satoshis))))
+//@   loop 0 invariant (forall ((k Int)) (=> (and (<= (old (len (. tx Inputs))) k) (< k (len (. tx Inputs)))) (= (. (at (. tx Inputs) k) PreviousTxScript) (. (at utxos (- k (old (len (. tx Inputs))))) LockingScript))))
+//@   loop 0 invariant (forall ((k Int)) (=> (and (<= (old (len (. tx Inputs))) k) (< k (len (. tx Inputs)))) (= (. (at (. tx Inputs) k) SequenceNumber) 4294967295)))
 
 // the UTXO supplier is the caller's function: assumed not to write memory of the library or of the transaction being
 // funded, and to return no nil entries. It must only ever be called with a positive deficit (obligation at each call).
 //@ sig utxogetter "func(ctx context.Context, deficit uint64) ([]*bt.UTXO, error)"
 //@   opt params ctx deficit
-//@   pure
+//@   assigns (key "$s:g:supplied")
 //@   requires (> deficit 0)
-//@   ensures (=> (= err nil) (forall ((j Int)) (=> (and (<= 0 j) (< j (len r0))) (not (nil? (at r0 j))))))
+//@   ensures (=> (= err nil) (and (= (ghost supplied) (+ (old (ghost supplied)) (len r0))) (forall ((j Int)) (=> (and (<= 0 j) (< j (len r0))) (and (not (nil? (at r0 j))) (= (at r0 j) (utxo_hist (+ (old (ghost supplied)) j))))))))
+//@   ensures (=> (not (= err nil)) (= (ghost supplied) (old (ghost supplied))))
 //@ func bt.(*Tx).Fund
 //@   opt forall-patterns 1
 //@   requires (spec.inputs_nonnil tx) (spec.outputs_nonnil tx) (not (nil? next))
+//@   requires (forall ((k Int)) (=> (and (<= 0 k) (< k (len (. tx Inputs)))) (allocated (at (. tx Inputs) k))))
 //@   requires (=> (not (nil? fq)) (spec.wf_quote fq))
 //@   ensures[C12.outputs_untouched] (= (. tx Outputs) (old (. tx Outputs)))
 //@   ensures[C12.inputs_kept] (and (>= (len (. tx Inputs)) (old (len (. tx Inputs)))) (forall ((k Int)) (=> (and (<= 0 k) (< k (old (len (. tx Inputs))))) (= (at (. tx Inputs) k) (old (at (. tx Inputs) k))))))
 //@   ensures[C12.covered] (=> (= err nil) (spec.deficit_is tx fq 0))
+//@   ensures[C12.inputs_from_supplier] (=> (or (= err nil) (= err ErrInsufficientFunds)) (and (= (len (. tx Inputs)) (+ (old (len (. tx Inputs))) (- (ghost supplied) (old (ghost supplied))))) (forall ((k Int)) (=> (and (<= (old (len (. tx Inputs))) k) (< k (len (. tx Inputs)))) (spec.input_of_utxo (at (. tx Inputs) k) (cast *bt.UTXO (utxo_hist (+ (old (ghost supplied)) (- k (old (len (. tx Inputs))))))))))))
 //@   loop 0 invariant (and (spec.inputs_nonnil tx) (spec.outputs_nonnil tx) (= (. tx Outputs) (old (. tx Outputs))) (>= (len (. tx Inputs)) (old (len (. tx Inputs)))))
 //@   loop 0 invariant (forall ((k Int)) (=> (and (<= 0 k) (< k (old (len (. tx Inputs))))) (= (at (. tx Inputs) k) (old (at (. tx Inputs) k)))))
 //@   loop 0 invariant (spec.deficit_is tx fq deficit)
+//@   loop 0 invariant (and (>= (ghost supplied) (old (ghost supplied))) (= (len (. tx Inputs)) (+ (old (len (. tx Inputs))) (- (ghost supplied) (old (ghost supplied))))))
+//@   loop 0 invariant (forall ((k Int)) (=> (and (<= (old (len (. tx Inputs))) k) (< k (len (. tx Inputs)))) (spec.input_of_utxo (at (. tx Inputs) k) (cast *bt.UTXO (utxo_hist (+ (old (ghost supplied)) (- k (old (len (. tx Inputs))))))))))
+//@   loop 0 invariant (forall ((k Int)) (=> (and (<= 0 k) (< k (len (. tx Inputs)))) (allocated (at (. tx Inputs) k))))
 // the estimate works on a deep copy: nothing that existed before is written
 //@ func bt.(*Tx).estimatedFinalTx
 //@   pure
